@@ -11,7 +11,8 @@
    201 : exact-pod-set law on one observed sync step      202/207 : idempotence (pods / counters)
    203 : crash/restart convergence                         204 : pod markers
    205 : PodGroup mirrors spec                             206 : minResources admissible
-   212 : minResources with ties visited in spec order (fewer than 12 tasks) *)
+   212 : minResources with ties visited in spec order (fewer than 12 tasks)
+   221 : law 201 with its guard required (last sync of the directed families) *)
 From Coq Require Import ZArith List Bool.
 From V Require Import Base.Codec C05.Model C05.JobCodec C05.Laws C06.Model C06.Laws.
 Import ListNotations.
@@ -62,6 +63,8 @@ Definition entry (sel : Z) (toks : list Z) : list Z :=
   | 5 => match run_dec dHistory toks with Some _ => [1] | None => bad_input end
   | 201 => match run_dec dStepCase toks with
            | Some (sp, r, fresh, pgv, b, a) => eBool (law_sync_step sp r fresh pgv b a) | None => bad_input end
+  | 221 => match run_dec dStepCase toks with
+           | Some (sp, r, fresh, pgv, b, a) => eBool (law_sync_step_strict sp r fresh pgv b a) | None => bad_input end
   | 202 => match run_dec (dPair dObs dObs) toks with
            | Some (a1, a2) => eBool (law_idem a1 a2) | None => bad_input end
   | 207 => match run_dec (dPair dObs dObs) toks with
